@@ -808,7 +808,7 @@ func hashScenario(r *mc.Run, name string, bounds map[string]interface{}, ws []wo
 					ss = srcs
 				}
 				for _, src := range ss {
-					for _, sel := range sels {
+					for si, sel := range sels {
 						for _, at := range sumAts(ch) {
 							in := In{Op: op, Stream: sh, Chunks: ch, Algos: sel, SumAt: at, Src: src}
 							st.Evals++
@@ -827,7 +827,7 @@ func hashScenario(r *mc.Run, name string, bounds map[string]interface{}, ws []wo
 							} else {
 								st.Class(op + "/agrees/" + lenClass(len(w.stream)))
 							}
-							if (i*31+ci*7+at)%4099 == 0 && st.WantSample() {
+							if i == len(ws)*2/3 && ci == len(w.chunks)/2 && si == len(sels)*3/4 && at == len(ch)/2 && src == ss[len(ss)-1] && op == ops[0] && st.WantSample() {
 								st.Sample(in)
 							}
 						}
@@ -978,7 +978,7 @@ func unknownScenario(r *mc.Run) {
 					} else {
 						st.Class(c + "/error")
 					}
-					if len(l) == 3 && st.WantSample() {
+					if i == 3 && len(l) == 3 && l[1] == u && c == "NewHasherWriters" && l[0] == "sha1" && st.WantSample() {
 						st.Sample(in)
 					}
 				}
@@ -1047,7 +1047,7 @@ func verifyScenarios(r *mc.Run) {
 							st.Transitions += int64(len(ch) + 3)
 							st.Class(class)
 							st.Violate(v)
-							if (i+entry)%37 == 5 && kind == "other-algorithm" && st.WantSample() {
+							if (i == 20 || i == len(pairs)-1) && c.carrier == "best" && (kind == "other-algorithm" || kind == "true-digest") && c.fields == "512" && entry == 0 && len(ch) == len(chunkings[len(chunkings)-1]) && st.WantSample() {
 								st.Sample(in)
 							}
 						}
@@ -1079,7 +1079,7 @@ func verifyScenarios(r *mc.Run) {
 						st.Transitions += int64(len(ch) + 3)
 						st.Class(class)
 						st.Violate(v)
-						if i%41 == 7 && st.WantSample() {
+						if i == 33 && carrier == "hasher-sha512" && len(ch) == len(chunkings[len(chunkings)-1]) && st.WantSample() {
 							st.Sample(in)
 						}
 					}
